@@ -927,7 +927,7 @@ where
     requires self.graph_wf(), self.vertices@.contains_key(root),
     ensures
         /*@iff*/ r == acyclic_from(self.edges@.dom(), root),
-//@ before 0 `return false; } temporary_marks.insert(node);`
+//@ after 0 `if temporary_marks.contains(&node) {`
     proof {
         lemma_path_refl(graph.edges@.dom(), node);
         assert(path_plus(graph.edges@.dom(), node, node));
@@ -1100,7 +1100,7 @@ where
     }
 //@ before 0 `continue;`
     proof { gs = stack@; }
-//@ after 0 `tree.insert_edge(NullEdge::new(pred, index))?;`
+//@ before 0 `for successor__r in it: &self.successors[&index]`
     proof {
         let es = self.edges@.dom();
         assert(tree0.graph_wf());
@@ -1348,7 +1348,7 @@ where
             if j < it2.index@ { assert(sp0.contains(*it2.seq()[j])); }
         }
     }
-//@ before 0 `if changed { queue.push_back(*successor_index); }`
+//@ after 0 `changed = changed || ins__; } }`
     let ghost qb = queue@;
     proof {
         let es = self.edges@.dom();
@@ -1382,7 +1382,7 @@ where
         }
         vstd::set_lib::lemma_len_subset(codesw, codesa);
     }
-//@ after 0 `if changed { queue.push_back(*successor_index); }`
+//@ after 0 `queue.push_back(*successor_index); }`
     proof {
         lemma_push_contains(qb, s);
         if changed { assert(queue@ =~= qb.push(s)); }
@@ -1409,7 +1409,7 @@ where
             let j = choose|j: int| 0 <= j < it.seq().len() && *#[trigger] it.seq()[j] == s2;
         }
     }
-//@ after 0 `if changed { queue.push_back(*successor_index); } }`
+//@ after 0 `queue.push_back(*successor_index); } }`
     proof {
         let es = self.edges@.dom();
         // re-establish the while invariant
@@ -1586,7 +1586,7 @@ where
         forall|b: usize| #![trigger self.edges@.contains_key((vertex_index, b))] it.index@ == it.seq().len() && self.edges@.contains_key((vertex_index, b))
             ==> (visited@.contains(b) || queue@.contains(b)) && (graph.edges@.contains_key((vertex_index, b)) || path_plus(self.edges@.dom(), b, vertex_index)),
         self.vertices@.dom().len() - visited@.len() < self.vertices@.dom().len() - vis0.len(),
-//@ before 0 `if visited.contains(successor) && vertex_predecessors.contains(successor)`
+//@ after 0 `for successor in it: &self.successors[&vertex_index] {`
     let ghost qa = queue@;
     let ghost gea = graph.edges@.dom();
     proof {
